@@ -113,6 +113,42 @@ def run_items(case):
             st["trans"] += 1
             if np.abs(np.sort(job2.eigenvalues) - np.sort(lam_)).max() > 1e-9 * abs(dense[k]):
                 bad(f"{lab}/repeat", "a second analysis of the same item list gives another spectrum (items modified by evaluate)", np.sort(job2.eigenvalues).tolist(), np.sort(lam_).tolist(), 1e-9)
+    # one long-lived job: evaluate + extract, then the boundary dictionary grows / shrinks (it is held by reference), evaluate +
+    # extract again -- every ordered pair of three dictionaries; the extracted shapes must belong to the CURRENT constraints
+    region = zoo.region(mk, mesh)
+    Fc = fem.Field if fk == "3d" else fem.FieldPlaneStrain
+    field = fem.FieldContainer([Fc(region, dim=d)])
+    body = fem.SolidBody(fem.LinearElasticLargeStrain(E=1.0, nu=0.3), field, density=1.0)
+    P = mesh.points
+    Bs = {"left": {"a": fem.Boundary(field[0], mask=np.isclose(P[:, 0], P[:, 0].min()))},
+          "left+right": {"a": fem.Boundary(field[0], mask=np.isclose(P[:, 0], P[:, 0].min())), "b": fem.Boundary(field[0], mask=np.isclose(P[:, 0], P[:, 0].max()))},
+          "bottom-y": {"c": fem.Boundary(field[0], mask=np.isclose(P[:, 1], P[:, 1].min()), skip=(1, 0, 1)[:d]), "a": fem.Boundary(field[0], mask=np.isclose(P[:, 0], P[:, 0].min()))}}
+    Kf = body.assemble.matrix(field).toarray()
+    Mf = body.assemble.mass().toarray()
+    for b1, b2 in itertools.permutations(Bs, 2):
+        live = dict(Bs[b1])
+        job = fem.FreeVibration([body], live)
+        job.evaluate(x0=field, k=3, v0=1.0 + zoo.offarr(seed, 1501, (len(fem.dof.partition(field, live)[1]),)))
+        for n_ in (0, 1, 2):
+            job.extract(n=n_, x0=field, inplace=False)
+        live.clear()
+        live.update(Bs[b2])  # the same dict object, other constraints
+        dof0, dof1 = fem.dof.partition(field, live)
+        job.evaluate(x0=field, k=3, v0=1.0 + zoo.offarr(seed, 1502, (len(dof1),)))
+        st["trans"] += 2
+        K1, M1 = Kf[np.ix_(dof1, dof1)], Mf[np.ix_(dof1, dof1)]
+        for n_ in (0, 1, 2, -1):
+            f2, freq = job.extract(n=n_, x0=field, inplace=False)
+            vals = f2[0].values.ravel()
+            st["traces"] += 1
+            lab = f"re-evaluate/{b1}->{b2}/mode{n_}"
+            if np.abs(vals[dof0]).max() > 0:
+                bad(lab + "/prescribed", "mode shape extracted after the job was re-evaluated with other boundaries must vanish on the CURRENT prescribed unknowns", float(np.abs(vals[dof0]).max()), 0)
+            lam_n = (2 * np.pi * freq) ** 2
+            res = np.abs(K1 @ vals[dof1] - lam_n * (M1 @ vals[dof1])).max()
+            if res > 1e-7 * np.abs(K1).max() * max(np.abs(vals).max(), 1e-300):
+                bad(lab + "/pair", "extracted (shape, frequency) after re-evaluation is not an eigenpair of the current pencil", float(res), 0, 1e-7)
+            nontrivial.append(lab)
     for sel, lst in spectra.items():
         for lab, sp in lst[1:]:
             st["traces"] += 1
